@@ -62,7 +62,7 @@ def roles(n, tier):
 
 def buffer_variants(tier):
     inits = [0, 2, None] if tier == "quick" else [None, 0, 2, 5]
-    finals = [None, 3] if tier == "quick" else [None, 0, 3]
+    finals = [None, 0, 3]
     out = []
     for cls in ("NonConcurrentBuffer", "ConcurrentBuffer"):
         for i in inits:
